@@ -6,7 +6,7 @@ import vlib
 PID = "C09"
 THEOREMS = [
     "c09_reader_total", "c09_reader_total_monotone", "c09_reader_no_panic", "c09_edit_no_panic",
-    "c09_preproc_no_panic", "c09_defines_no_panic", "c09_position_truthful", "c09_clause_at_own_line",
+    "c09_preproc_no_panic", "c09_defines_no_panic", "c09_shorthand_no_panic", "c09_position_truthful", "c09_clause_at_own_line",
     "c09_invariant_reachable", "c09_include_depth_bounded",
 ]
 QUERIES = [
@@ -16,6 +16,9 @@ QUERIES = [
     ("Oread", "bad_indices read_oracle_bad read_cases"),
     ("Medit", "bad_indices edit_model_bad edit_cases"),
     ("Oedit", "bad_indices edit_oracle_bad edit_cases"),
+    ("Mshort", "bad_indices shorthand_model_bad shorthand_cases"),
+    ("Oshort", "bad_indices shorthand_oracle_bad shorthand_cases"),
+    ("Knote", "bad_indices parse_kind_note parse_cases"),
 ]
 
 CODE_SIG = {
@@ -23,7 +26,7 @@ CODE_SIG = {
     3: ("diagnostic-position-not-in-input", "the diagnostic names a file/line that does not exist in the input"),
     4: ("include-chain-line-past-include", "an entry of the include chain of the diagnostic is not the line of an include clause of an input file"),
     5: ("diagnostic-quotes-another-line", "the line quoted by the diagnostic is not that line of that file"),
-    6: ("fault-reported-at-wrong-position", "a clause that is not valid syntax was not reported at exactly its own file and line with its include chain"),
+    6: ("fault-reported-at-wrong-position", "a planted fault was not reported at exactly its own file and line with its include chain (position and chain are compared, not the wording)"),
     7: ("fault-not-reported", "an invalid clause / missing include / unterminated continuation was accepted"),
     8: ("include-chain-unreadable", "the include chain of the diagnostic is not a list of <file>:<line> entries"),
 }
@@ -58,7 +61,7 @@ def run(tier, seed):
         "evaluations": summary["evaluations"],
         "distinct_nontrivial": summary["distinct_nontrivial"],
         "exhaustive": False,
-        "rule": "streams: (1) grammar-derived valid configurations covering every clause kind of the manual (see clause_kinds; cast multiplicities 1-12, zero and negative, written out or through a parameter), laid out over files with includes (sibling, sub-directory, -I only, by path), continuations, comments, odd indentation, missing final newline; (2) the same with ONE fault at a position the generator knows (bogus clause, missing include, one undefined parameter, three or more undefined parameters in one clause, unterminated continuation, include of a directory) — oracle = exactly that file, line, include chain and kind; (3) 1-3 random mutations of (1) (delete/swap/duplicate bytes and lines, truncate, backslash at line end, spliced keywords and odd bytes); (4) arbitrary bytes (all bytes / printable / token soup / newline-backslash-tilde heavy); (5b) cast multiplicities from a list of boundary values (most negative int64 .. 40, signs, non-numbers; bounded above), direct / default / -D; (5) include graphs (chains to depth 12, diamonds, self/mutual/3-cycles, directories, missing files, -I only, shadowing, `..`) with the reference reading order computed by an independent recursive expander; (6) the reader alone, every logical line with position and include chain compared exactly; (7) the `edit` splitter on structured and random commands; corpus of past failures first. Every experiment runs in a CHILD process (the harness re-executed with -child, gob over pipes) under a %ds watchdog and recover(): a case that kills the process (stack overflow, os.Exit) or hangs is attributed to itself, the child is replaced; rendering the diagnostic (RenderError and Error()) is part of every case. distinct_nontrivial = distinct (file set, -D list) with at least 8 bytes of input, counted by content." % 10,
+        "rule": "streams: (1) grammar-derived valid configurations covering every clause kind of the manual (see clause_kinds; cast multiplicities 1-12, zero and negative, written out or through a parameter), laid out over files with includes (sibling, sub-directory, -I only, by path), continuations, comments, odd indentation, missing final newline; (2) the same with ONE fault at a position the generator knows (bogus clause, missing include, one undefined parameter, three or more undefined parameters in one clause, unterminated continuation, include of a directory) — oracle = rejected at exactly that file, line and include chain (the message wording is not judged); (3) 1-3 random mutations of (1) (delete/swap/duplicate bytes and lines, truncate, backslash at line end, spliced keywords and odd bytes); (4) arbitrary bytes (all bytes / printable / token soup / newline-backslash-tilde heavy); (5b) cast multiplicities from a list of boundary values (most negative int64 .. 40, signs, non-numbers; bounded above), direct / default / -D; (5) include graphs (chains to depth 12, diamonds, self/mutual/3-cycles, directories, missing files, -I only, shadowing, `..`) with the reference reading order computed by an independent recursive expander; (6) the reader alone, every logical line with position and include chain compared exactly; (5c) the space characters on which the regexp classes and strings.TrimSpace disagree (U+000B, 0085, 00A0, 1680, 2000-200A, 2028, 2029, 202F, 205F, 3000) written instead of / before / after / twice / as separator of ONE token of a valid configuration, every scene shorthand x every character exhaustively; (7) the `edit` splitter on structured and random commands; (8) `scene TOKEN mood starts red` for all 256 single bytes and those runes, compared with the model of validateShorthand (exhaustive); corpus of past failures first. Every experiment runs in a CHILD process (the harness re-executed with -child, gob over pipes) under a %ds watchdog and recover(): a case that kills the process (stack overflow, os.Exit) or hangs is attributed to itself, the child is replaced; rendering the diagnostic (RenderError and Error()) is part of every case. distinct_nontrivial = distinct (file set, -D list) with at least 8 bytes of input, counted by content." % 10,
         "samples": summary["samples"],
         "distribution": {k: summary[k] for k in ("counts", "outcomes", "by_stream", "error_classes", "faults", "graph_shapes",
                                                   "clause_kinds", "grammar_texts_accepted", "grammar_texts_total",
@@ -120,18 +123,31 @@ def run(tier, seed):
         seen.add(esig)
         res.violation(esig, "the script clause %r crashes the parser: %s" % (rec["Line"], rec["Pan"]),
                       {"kind": "failing-input", "input": rec, "replay": "script / %s / end" % rec["Line"]})
+    for idx in L.global_indices(vals["Oshort"], off["shorthand"]):
+        rec = cases["shorthand"][idx]
+        ssig = "parser-fatal-error" if (rec.get("Pan") or "").startswith("fatal") else ("parse-timeout" if rec.get("Pan") == "did not terminate" else "scene-shorthand-panic")
+        if ssig in seen:
+            continue
+        seen.add(ssig)
+        res.violation(ssig, "the script clause %r (shorthand bytes %s) crashes the parser: %s" % (rec["Line"], rec["Cmd"].encode("utf-8", "surrogateescape").hex(), rec["Pan"]),
+                      {"kind": "failing-input", "input": rec, "replay": "script / %s / end" % rec["Line"]})
     dis = {"Mparse": L.global_indices(vals["Mparse"], off["parse"]), "Mread": L.global_indices(vals["Mread"], off["read"]),
-           "Medit": L.global_indices(vals["Medit"], off["edit"])}
+           "Medit": L.global_indices(vals["Medit"], off["edit"]), "Mshort": L.global_indices(vals["Mshort"], off["shorthand"])}
+    notes = L.global_indices(vals["Knote"], off["parse"])
+    res.coverage["message_class_notes"] = {
+        "count": len(notes),
+        "meaning": "rejections whose position and include chain equal the model's but whose message TEXT is not in the class the model's error kind usually has (a reworded diagnostic does this); recorded, never a violation",
+        "examples": [L.describe_obs(cases["parse"][i]["Obs"]) + " :: " + cases["parse"][i]["Obs"].get("ErrShort", "")[:120] for i in notes[:3]]}
     if not res.violations and not res.known:
-        for name, key in (("Mparse", "parse"), ("Mread", "read"), ("Medit", "edit")):
+        for name, key in (("Mparse", "parse"), ("Mread", "read"), ("Medit", "edit"), ("Mshort", "shorthand")):
             if dis[name]:
                 rec = cases[key][dis[name][0]]
                 res.violation(None, "model and implementation disagree on a %s case (property oracle passes): correspondence %s broken" % (key, name),
                               {"kind": "correspondence", "query": name, "n_disagreements": len(dis[name]), "first": rec},
                               no_input=True)
     res.coverage["disagreements"] = {"model_vs_impl": {k: len(v) for k, v in dis.items()},
-                                     "oracle_failures": sum(1 for c in codes if c != 0) + sum(len(x or []) for x in vals["Oread"]) + sum(len(x or []) for x in vals["Oedit"])}
-    res.coverage["disagreements_checked"] = len(codes) + summary["counts"]["read"] + summary["counts"]["edit"]
+                                     "oracle_failures": sum(1 for c in codes if c != 0) + sum(len(x or []) for x in vals["Oread"]) + sum(len(x or []) for x in vals["Oedit"]) + sum(len(x or []) for x in vals["Oshort"])}
+    res.coverage["disagreements_checked"] = len(codes) + summary["counts"]["read"] + summary["counts"]["edit"] + summary["counts"].get("shorthand", 0)
     return res.finish()
 
 
